@@ -82,6 +82,25 @@ def kwargs_of(case):
     return kw
 
 
+def body_step(f, step):
+    """Every body step except 'write' (shared by the simulated, real-kernel and forked executions)."""
+    if step[0] == 'flush':
+        f.flush()
+    elif step[0] == 'rewind':
+        f.seek(0)                   # the part file is opened w+: a body may go back, e.g. to checksum
+    elif step[0] == 'readback':
+        f.seek(0)
+        f.read()
+    elif step[0] == 'raise':
+        if len(step) > 1 and step[1] == 'base':
+            raise BodyAbort('body interrupted')
+        if len(step) > 1 and step[1] == 'falsy':
+            raise FalsyError()
+        raise BodyError('body failed')
+    else:
+        raise AssertionError(step)
+
+
 def make_saver(case, dest):
     """The two public entry points: the atomic_save() function and the AtomicSaver class itself."""
     if case.get('entry') == 'class':
@@ -164,14 +183,8 @@ def run_save(case, plan=None, log=None, hooks=None, fs=None, only_warmup=False):
                     while isinstance(f, simfs.SimRaw) and n is not None and 0 < n < len(data):
                         data = data[n:]
                         n = f.write(data)
-                elif step[0] == 'flush':
-                    f.flush()
-                elif step[0] == 'raise':
-                    if len(step) > 1 and step[1] == 'base':
-                        raise BodyAbort('body interrupted')
-                    if len(step) > 1 and step[1] == 'falsy':
-                        raise FalsyError()
-                    raise BodyError('body failed')
+                else:
+                    body_step(f, step)
             r.body_done = True
     except simfs.CrashNow:
         r.crashed = True
@@ -253,6 +266,9 @@ def gen_body(rng, text, blksize, allow_raise=False):
         steps.append(['write', ('x' * big) if text else (b'\xab' * big).hex()])
         if rng.random() < 0.7:
             steps.append(['write', chunk(rng.randint(1, 5))])
+    if steps and rng.random() < 0.06:
+        # after the last write the body goes back to the start (and perhaps reads its data back)
+        steps.append(rng.choice([['rewind'], ['readback']]))
     if allow_raise and rng.random() < 0.25:
         steps.insert(rng.randint(0, len(steps)), rng.choice([['raise'], ['raise'], ['raise'], ['raise', 'base'], ['raise', 'falsy']]))
     return steps
@@ -397,14 +413,8 @@ def run_real(case):
                 for step in case['body']:
                     if step[0] == 'write':
                         f.write(step[1] if case.get('text_mode') else bytes.fromhex(step[1]))
-                    elif step[0] == 'flush':
-                        f.flush()
-                    elif step[0] == 'raise':
-                        if len(step) > 1 and step[1] == 'base':
-                            raise BodyAbort('body interrupted')
-                        if len(step) > 1 and step[1] == 'falsy':
-                            raise FalsyError()
-                        raise BodyError('body failed')
+                    else:
+                        body_step(f, step)
         except BaseException as e:
             exc = e
         out = {'listing': sorted(os.listdir(d)), 'exc': type(exc).__name__ if exc else None, 'calls': rec.calls,
@@ -504,8 +514,8 @@ def real_crash_enumeration(case, max_points=40):
                         for step in case['body']:
                             if step[0] == 'write':
                                 f.write(step[1] if case.get('text_mode') else bytes.fromhex(step[1]))
-                            elif step[0] == 'flush':
-                                f.flush()
+                            else:
+                                body_step(f, step)
                 finally:
                     os._exit(0)
             os.waitpid(pid, 0)
